@@ -20,6 +20,12 @@ import OxiddModel.Bdd.DriverCountS
 import OxiddModel.Bdd.LevelTableDriver
 import OxiddModel.Bdd.DriverThreshold
 import OxiddModel.AigerParse.Driver
+import OxiddModel.Cache.Driver
+import OxiddModel.Mtbdd.DriverRc
+import OxiddModel.Bcdd.DriverRc
+import OxiddModel.Pointer.Driver
+import OxiddModel.NnfParse.DriverRt
+import OxiddModel.NnfParse.Driver
 
 open OxiddModel
 
@@ -50,7 +56,15 @@ def protos : List (String × Proto) := [
   ("c14t", OxiddModel.Bdd.ThresholdDriver.proto),
   ("aigparse", OxiddModel.AigerParse.proto),
   ("aigparse-noskip", OxiddModel.AigerParse.protoNoSkip),
-  ("aigparse-before-fix", OxiddModel.AigerParse.protoBeforeFix)
+  ("aigparse-before-fix", OxiddModel.AigerParse.protoBeforeFix),
+  ("dmcache", OxiddModel.Cache.Driver.proto),
+  ("mtbdd-rc", OxiddModel.Mtbdd.DriverRc.proto),
+  ("bcdd-rc", OxiddModel.Bcdd.DriverRc.proto),
+  ("ptrmgr", OxiddModel.Pointer.Driver.proto),
+  ("nnfparse", OxiddModel.NnfParse.protoRtFixed),
+  ("nnfparse-fixed-names", OxiddModel.NnfParse.protoRtFixedNames),
+  ("nnfparse-noskip", OxiddModel.NnfParse.protoNoSkip),
+  ("nnfparse-before-fix", OxiddModel.NnfParse.protoRt)
 ]
 
 def main (args : List String) : IO UInt32 := do
